@@ -331,6 +331,19 @@ def check_width(spec, ctx):
         out = ctx.call(spec, f"adjust_dim_width(width={w}, position={pos})", arrays.operations.adjust_dim_width, arr, "time", w, fill_value=fill_v, position=pos)
     ctx.unchanged(spec, "adjust_dim_width: the input array", before, arr)
     renamed_agrees(ctx, spec, "adjust_dim_width", arrays.operations.adjust_dim_width, arr, out, w, fill_value=fill_v, position=pos)
+    if w <= n:
+        # the same samples on an axis that has no coordinate variable at all (the form the docstring examples use): cropping to a width is
+        # a matter of positions
+        bare = arr.drop_vars("time")
+        for fn_b in (arrays.operations.adjust_dim_width,) + ((arrays.operations.crop_dim_width,) if w < n else ()):
+            try:
+                out_b = fn_b(bare, "time", w, position=pos)
+            except Exception as e:  # noqa: BLE001
+                ctx.fail(f"{fn_b.__name__}(width={w}, position={pos}) on an axis without coordinates raised {type(e).__name__}: {str(e)[:160]}", spec, repr(e)[:200], None, kind="no_coordinate_axis")
+                break
+            if out_b.sizes["time"] != w or not np.array_equal(out_b.transpose(*out.dims).values, out.values, equal_nan=True):
+                ctx.fail(f"{fn_b.__name__}(width={w}, position={pos}) on an axis without coordinates returns {out_b.sizes['time']} samples / other samples than on the same data with coordinates ({out.sizes['time']})", spec, out_b.sizes["time"], w, kind="no_coordinate_axis")
+        ctx.label("axis_without_coordinates")
     if pos == "start":  # documented defaults: position="start", fill_value=0
         d_out = arrays.operations.adjust_dim_width(arr, "time", w)
         if d_out.sizes["time"] != out.sizes["time"] or not np.array_equal(d_out.coords["time"].values, out.coords["time"].values):
